@@ -20,8 +20,8 @@ OPEN_GOALS: list = []
 TECHNIQUE = "Coq proof by induction on the object tree (strengthened inequality with its equality case, nia); model tied to reconcile_lca / reconcile_thl by exhaustive small inputs + random larger ones"
 LEVEL_TEXT = ("Machine-checked for all binary trees and cost vectors with 0<=dup, 0<=floss, spe<=dup+2floss: reconcile_lca's model maps every node (C07_lca_mapping_every_node) to the LCA of its leaves' species, "
               "is valid and transfer-free, has minimum evaluator cost among all valid transfer-free reconciliations (among all valid ones when the transfer cost is infinite), "
-              "and is the only optimum when floss>0. The model is compared with reconcile_lca (mapping and cost) and with reconcile_thl under an infinite transfer cost.")
-LEVEL_NOTE = ("Trusted: Coq kernel; hand-written models (correspondence = differential testing); ancestry notions on paths (C17 ties them to the code). "
+              "and is the only optimum when floss>0. The model is compared with reconcile_lca (mapping and cost) and with reconcile_thl under an infinite transfer cost. reconcile_lca itself is translated into Gallina on every run (Gen/ThlGen.v) and proved to return the dictionary that denotes the model's reconciliation, for every binary object tree with distinct nodes (C07_gen_reconcile_lca_eq); that the bound on the speciation cost cannot be dropped is kernel-checked (C07_c07_spe_needed).")
+LEVEL_NOTE = ("Trusted: Coq kernel; the translator (pyfun.py + thl_gen.py); hand-written models (proved equal to the generated reconcile_lca, and correspondence = differential testing); ancestry notions on paths (C17 ties them to the code). "
               "No axioms. The speciation cost is quantified as spe <= dup + 2*floss (0 by default), the region in which the claim is true.")
 
 HEADER = R.RECON_HEADER + "From SR Require Import Model.LcaRec.\n"
